@@ -68,3 +68,10 @@ Example C07_example :
   has_err (snd (e_net cfg (fst (e_net cfg (e_new 0) legacy_witness_stream 0))
                       (concat (repeat (enc_codec (data_frame true [1])) 256)) 0)) = true.
 Proof. split; [apply fresh_engine_inv | vm_compute; reflexivity]. Qed.
+
+(* ---- MAXMSGSIZE / HANDSHAKE_IVL as the application sets them (option layer, Model/Options.v) ---- *)
+From RZ Require Import Model.Options Proofs.OptionsProofs.
+Theorem C07_maxmsgsize_option_semantics : forall (o : opts) (b : bytes), (match apply_opt o MAXMSGSIZE b with | inl o' => exists v, i64_of b = Some v /\ -1 <= v /\ maxmsgsize_of o' = v /\ (forall g, g <> F_maxmsgsize -> o' g = o g) | inr e => e = EVal MAXMSGSIZE /\ (i64_of b = None \/ exists v, i64_of b = Some v /\ v < -1) end)%Z.
+Proof. exact maxmsgsize_semantics. Qed.
+Theorem C07_handshake_ivl_option_semantics : forall (o : opts) (b : bytes), (match apply_opt o HANDSHAKE_IVL b with | inl o' => exists v, i32_of b = Some v /\ 0 <= v /\ handshake_ivl_of o' = ivl_decode v /\ (forall g, g <> F_handshake_ivl -> o' g = o g) | inr e => e = EVal HANDSHAKE_IVL /\ (i32_of b = None \/ exists v, i32_of b = Some v /\ v < 0) end)%Z.
+Proof. exact handshake_ivl_semantics. Qed.
